@@ -199,6 +199,35 @@ def run(chk, F, tier, pairs, tabs, info):
             else:
                 chk.ok("algorithm", key + ": result %r beyond the last abscissa with the sign of u" % (rv,))
 
+    # ---- the exponential tail: R - ln(U) with U a fresh draw from (0, 1], whatever the body's u was.  Abstract runs of Exp1's tail
+    # routine with u pinned to two different points: the result must be the same interval, start at R and reach at least R + 36
+    # (-ln of the smallest non-zero draw is 36.7); a value computed from u itself is a single point per run
+    ez = [i for i in F.instances if i.get("full") and i["path"].endswith("Exp1 as rand::distr::Distribution<f64>>::sample::zero_case")]
+    chk.floor("exponential tail routine instances", len(ez), 1)
+    RE = info.get("exp", {}).get("R")
+    for inst in ez[:1]:
+        ax = Axioms(F)
+        res = []
+        for u in (Fl.point(Fraction(9, 10)), Fl.point(Fraction(99, 100))):
+            ip = Interp(F, ax)
+            rv, st = ip.run_root(inst, [Rf(None, Top(), True), u])
+            res.append(rv)
+        key = "exponential tail"
+        rv = res[0]
+        if RE is None or not all(isinstance(r, Fl) and not r.nan and r.lo() is not None and r.hi() is not None for r in res):
+            chk.violation("algorithm", key, "tail result %r is not a NaN-free float (or R unknown)" % (res,), where=span_str(inst.get("span")))
+        elif res[0] != res[1]:
+            chk.violation("algorithm", key, "the Exp1 tail value depends on the body's uniform u (u = 0.9 gives %r, u = 0.99 gives %r): the tail must be R - ln(U) with a "
+                          "fresh U, otherwise it collapses into a sliver just beyond R" % (res[0], res[1]), where=span_str(inst.get("span")))
+        else:
+            Rq = Fraction(RE)
+            lo, hi = rv.lo(), rv.hi()
+            tol = Rq * Fraction(1, 10 ** 9)
+            if abs(lo[0] - Rq) <= tol and hi[0] >= Rq + 36 and not rv.ninf:
+                chk.ok("algorithm", key + ": R - ln(U), U fresh in (0, 1]: %r, independent of u" % (rv,))
+            else:
+                chk.violation("algorithm", key, "the Exp1 tail must cover [R, R + 36.7] = R - ln((0, 1]) with R = %s; abstract result %r" % (RE, rv), where=span_str(inst.get("span")))
+
     # ---- acceptance test of the Marsaglia tail: the loop is left exactly when  -2*y >= x*x  (y = ln U2, x = ln U1 / R)
     for inst in zc[:1]:
         T = Terms(F, inst)
